@@ -73,6 +73,9 @@ def deductive(run):
                                       note="string_to_expr / DecoratedNode / count_nodes / check_operators / evalf opaque and allowed to raise at every call (engine option may_raise_calls); "
                                            "the selection region is verified under the postconditions of the prologue and of the four blocks")
         failed += f
+    st, f, _e = D.verify_function(run, "generation/generator.py", "DecoratedNode.count_nodes", c_strnode.count_nodes_contract, timeout_ms=8000,
+                                  note="to_list opaque (a list whose length is a function of node and basis)")
+    failed += f
     if D.canary(run, "generation/generator.py", "string_to_node", c_strnode.tail_contract) is False:
         raise RuntimeError("canary verified: engine vacuous on the selection region of string_to_node")
     run.assume("A-str: strings are abstract; lower(), startswith('a'), s[1:], generator.is_float are uninterpreted functions/predicates of the string (lower idempotent, literals evaluated)",
